@@ -697,6 +697,14 @@ def _static_case(draw):
     if lists != 'none' and named and shape['kind'] != 'method':
       shape['allowlist' if lists == 'allow' else 'denylist'] = draw(
           st.lists(st.sampled_from(named), unique=True, min_size=1, max_size=3))
+    if (shape['kind'] == 'function' and shape['api'] != 'configurable' and defaulted and
+        not shape.get('twin_other_defaults') and not shape.get('posonly_first_default') and
+        draw(st.integers(0, 2)) == 0):
+      # the same function object is registered first under another name, with a denylist of its
+      # own: which defaults this registration may record is decided by its own lists only
+      shape['also_as'] = 'c07first%d' % i
+      shape['also_as_lists'] = {'denylist': draw(st.lists(st.sampled_from(defaulted), unique=True,
+                                                          min_size=1, max_size=2))}
     probes.append(shape)
   if n == 3 and draw(st.integers(0, 2)) == 0:
     # two registered methods with the same class name and method name in two modules: the text
